@@ -177,6 +177,28 @@ def plan(tier, seed):
         sids = [e["id"] for e in G.flatten(p)["elems"] if e["kind"] == "scenario"]
         return [dict(c, names=[i for i in sids if rnd.random() < 0.5]) if rnd.random() < prob else c for c in cfgs]
 
+    def truth_table_programs():
+        """every tag expression of the pool on scenarios (and outline rows) that carry every subset of the tag pool, at
+        scenario level and inherited from feature / rule: the complete truth table of each expression in real runs"""
+        import itertools
+        subsets = [list(c) for n in range(len(G.TAGPOOL) + 1) for c in itertools.combinations(G.TAGPOOL, n)]
+        own = {"features": [G.feature([G.scenario(["pass"], ts) for ts in subsets])], "family": "truth"}
+        # (in Gherkin everything after a Rule belongs to it: the outline comes first)
+        inherited = {"features": [G.feature([G.outline([(ts, [["pass"]]) for ts in subsets[8:]], ["wip"]),
+                                             G.rule([G.scenario(["pass"], ts) for ts in subsets[:8]], ["t2"])], ["t1"])], "family": "truth"}
+        cfgs = [G.cfg(expr=e) for e in G.EXPRS] + [G.cfg(expr=e, show_skipped=False, dry=(i % 2 == 0)) for i, e in enumerate(G.EXPRS)]
+        return [(with_o2(own), cfgs, [[0, 0]]), (with_o2(inherited), cfgs, [[0, 0]])]
+
+    def exception_class_programs():
+        """every exception class the driver rotates through for `error` and `pending`, in @wip and ordinary scenarios
+        (consecutive scenario ids x one position: all residues of the rotation)"""
+        res = []
+        for tags in ([], ["wip"]):
+            for o in ("error", "pending"):
+                prog = {"features": [G.feature([G.scenario([o, "pass"]) for _ in range(6)], tags)], "family": "excclass"}
+                res.append((with_o2(prog), [G.cfg(), G.cfg(cont=True)], [[0, 0]]))
+        return res
+
     def with_literal(p, prob):
         """some programs: outline steps whose text is the same in all rows are written without placeholder"""
         if rnd.random() < prob:
@@ -285,6 +307,8 @@ def plan(tier, seed):
         out.extend(logging_programs())
         out.extend(lateskip_programs())
         out.extend(pair_programs(1))
+        out.extend(truth_table_programs())
+        out.extend(exception_class_programs())
     else:
         # ~85k runs: (a) EVERY hook invocation as injection point on the exhaustive family scen(2) under the default
         # configuration (also with autoretry: positions of the second attempt); (b) scen(3) under 4 configurations with
@@ -314,6 +338,8 @@ def plan(tier, seed):
         out.extend(logging_programs())
         out.extend(lateskip_programs())
         out.extend(pair_programs(3))
+        out.extend(truth_table_programs())
+        out.extend(exception_class_programs())
         for p in G.family_big(rnd, 300):
             out.append((with_o2(p), [rcfg(), rcfg()], rfaults(p, 6)))
     return out
@@ -323,7 +349,7 @@ def shared(chk, part="core"):
     """Run (or load) the shared stage for this tree / tier / seed.  Returns a dict:
        n_runs, tlc: [{module,cfg,distinct,generated,wall,coverage}], verdicts: {clause: [ {key, ...} ]},
        divergences, samples, design_violations"""
-    key = tree_key({"tier": chk.tier, "seed": chk.seed, "part": part, "v": 28})
+    key = tree_key({"tier": chk.tier, "seed": chk.seed, "part": part, "v": 30})
     os.makedirs(CACHE, exist_ok=True)
     # one entry per (part, tier, repository location): runs against a mutated copy must not evict /repo's entry
     prefix = "%s-%s-%s-" % (part, chk.tier, hashlib.sha256(REPO.encode()).hexdigest()[:8])
